@@ -3,7 +3,14 @@ use syn::{spanned::Spanned, Expr, Lit, LitStr, Meta, MetaNameValue, Path};
 
 #[inline]
 pub(crate) fn meta_name_value_2_path(name_value: &MetaNameValue) -> syn::Result<Path> {
-    match &name_value.value {
+    let mut value = &name_value.value;
+
+    // a value forwarded through a `macro_rules!` fragment (e.g. `$m:path`) is wrapped in invisible groups
+    while let Expr::Group(group) = value {
+        value = group.expr.as_ref();
+    }
+
+    match value {
         Expr::Lit(lit) => {
             if let Lit::Str(lit) = &lit.lit {
                 return lit.parse();
